@@ -278,7 +278,7 @@ pub fn run(thorough: bool) {
         probes: vec![Arc::new(MergeProbe)],
         pools: vec![1],
         time_budget_s: if thorough { 1800 } else { 30 },
-        max_states: if thorough { 300_000 } else { 10_000 },
+        max_states: if thorough { 300_000 } else { 30_000 },
         stop_on_violation: true,
     });
     merge_sweep(&mut rep, thorough);
